@@ -393,6 +393,17 @@ fn generate(rng: &mut Rng, index: u64) -> C08Sc {
         base.wplan.clear();
         sc.prelude = vec![abrupt_prelude(rng, &base)];
     }
+    // a dozen small configuration frames sent at one instant: one read each in the undisturbed execution, all in one
+    // read in the variant
+    if rng.chance(1, 12) {
+        let at = ms(5 + rng.below(2000));
+        for k in 0..rng.range(9, 16) {
+            let mut b = b"\x0fminecraft:brand".to_vec();
+            b.extend_from_slice(format!("-{k}").as_bytes());
+            sc.client.extras.push(crate::client::Extra { after_ack: true, at_ns: at, id: 0x02, body: Body::Raw { bytes: b } });
+        }
+        sc.client.coalesce = true;
+    }
     // an echo that arrives at the very instant the next Keep Alive is due - whole in the undisturbed execution, one byte at a
     // time (at that same instant) in the variant: whichever way such a tie is decided, it is decided the same way
     if rng.chance(1, 16) {
